@@ -79,7 +79,7 @@ PickN == st = 0 /\ \E s \in Strides : ca' = [kind |-> "sizes", s |-> s] /\ st' =
 PickE == st = 0 /\ \E s \in Strides, d \in Derivs, c \in Coeffs : \E m \in 1..IMin(MaxSize, (Len(c) - 3) * s) :
             /\ NCtrl(m, s) = Len(c)
             /\ ca' = [kind |-> "eval", s |-> s, d |-> d, c |-> c, m |-> m] /\ st' = 1
-PickE2 == st = 0 /\ \E c \in Coeffs2, sx \in {2, 3}, sy \in {1, 2}, dx \in {0, 1}, dy \in {0, 1} :
+PickE2 == st = 0 /\ \E c \in Coeffs2, sx \in {2, 3}, sy \in {1, 2}, dx \in {0, 1, 2}, dy \in {0, 1, 2} :
             ca' = [kind |-> "eval2", s |-> <<sx, sy>>, d |-> <<dx, dy>>, c |-> c,
                    m |-> <<(Len(c[1]) - 3) * sx - 1, (Len(c) - 3) * sy>>] /\ st' = 1
 PickS == st = 0 /\ \E c \in Coeffs : Len(c) >= 4 /\ ca' = [kind |-> "subdiv", c |-> c] /\ st' = 1
